@@ -569,6 +569,11 @@ def entry_twins(cr: CaseRun, answers: list[str], meta: dict, rng: random.Random,
     fails = []
     cid = cr.text.split()[1]
     vs = same_entry_variants(cr.cfg, cr.script, cr.exchanges)
+    # a case whose attempt timeout FIRES costs 0.3 s of real time per hanging operation on the sync path: its twins
+    # are run on the async path only (virtual event-loop clock)
+    fires = cr.cfg.has("attempt_timeout") and ((meta["wall_seed"] >> 14) & 7) == 7
+    if fires:
+        vs = [v for v in vs if v[1].has("async")]
     if vs:
         name, vcfg = rng.choice(vs + [v for v in vs if v[0] in ("sync", "async")])   # the hand-maintained twins
         counters["c12"]["same-entry:" + name] += 1
@@ -601,6 +606,8 @@ def entry_twins(cr: CaseRun, answers: list[str], meta: dict, rng: random.Random,
     # than Policy.execute, so at policy level the classifier must be a function of the exception, and
     # take no time (the extra call would otherwise shift the breaker's clock)
     functional = all(len(v) == 1 and next(iter(v)).endswith(" 0") for v in by_ref.values())
+    if fires and not cr.cfg.has("async"):
+        first = None
     if first is not None and cr.cfg.kind != "decorator" and c12_env(cr.cfg, [(0, r, x) for (r, x) in ex0]):
         if policy_level and not functional:
             counters["c12"]["flip:skipped-classifier-not-a-function"] += 1
@@ -919,6 +926,15 @@ def run(tier: str, seed: int, props: list[str] | None = None, n_cases: int | Non
         oracle = RandomOracle(random.Random(rng.getrandbits(48)), prof)
         wall_seed = rng.getrandbits(32)
         deliver_throw = cfg.has("async") and rng.random() < 0.5
+        forced_timeout = i % 100 == 7 and not cfg.has("no_retry")
+        if forced_timeout:
+            # a case whose attempt timeout FIRES (loopenv: Env._hangs): seven in eight on the async path, where the
+            # event loop's clock is virtual; the sync path costs 0.3 s of real time per hanging operation
+            cfg.flags.add("attempt_timeout")
+            if (i // 100) % 8 != 0:
+                cfg.flags.add("async")
+            wall_seed |= (7 << 14) | (1 << 17)
+            deliver_throw = False
         oracle_info = {"result_classifier": cfg.has("result_classifier")}
         _orig = oracle.choose
 
@@ -928,8 +944,13 @@ def run(tier: str, seed: int, props: list[str] | None = None, n_cases: int | Non
         oracle.choose = choose  # type: ignore[method-assign]
         # re-entrancy: the first invocation of each call's operation makes a complete nested call through the
         # same policy object (only without shared components, on which the outer call legitimately depends)
-        reentrant = cfg.breaker is None and cfg.budget is None and rng.random() < 0.12
+        reentrant = cfg.breaker is None and cfg.budget is None and rng.random() < 0.12 and not forced_timeout
         cr = run_case(f"s{seed}_{i}", cfg, script, oracle, wall_seed, deliver_throw, reentrant=reentrant)
+        if cr.stalled:
+            counters["entry"]["dropped:real-time-stall"] += 1
+            continue
+        if forced_timeout:
+            counters["entry"]["attempt-timeout-fires:" + ("async" if cfg.has("async") else "sync")] += 1
         meta = {"wall_seed": wall_seed, "deliver_throw": deliver_throw}
         batch.append((cr, meta))
         for ncr in cr.nested:
